@@ -71,7 +71,7 @@ fn write_file(dir: &Path, rel: &str, data: &[u8])
     let mut f = fs::OpenOptions::new().write(true).create(true).truncate(true).open(&p).expect("write file");
     f.write_all(data).expect("write");
     drop(f);
-    std::thread::sleep(Duration::from_millis(2));
+    std::thread::sleep(Duration::from_millis(5));
 }
 
 fn strip_ansi(s: &str) -> String
@@ -114,7 +114,7 @@ fn run_ruler(bin: &Path, dir: &Path, args: &[&str]) -> RealRun
         }
     }
     banners.sort();
-    std::thread::sleep(Duration::from_millis(2));
+    std::thread::sleep(Duration::from_millis(5));
     RealRun { ok: stderr.trim().is_empty(), stderr, banners }
 }
 
@@ -173,41 +173,61 @@ fn observe_model(fs: &Fs) -> (BTreeMap<String, (Vec<u8>, bool)>, BTreeSet<String
 }
 
 /// Model side of one trace: per step (verdict ok?, banners, observation)
-fn model_trace(sc: &Scenario, ops: &[Op]) -> Option<Vec<(bool, Vec<(String, String)>, (BTreeMap<String, (Vec<u8>, bool)>, BTreeSet<String>, DecodedHistory))>>
+type Obs = (BTreeMap<String, (Vec<u8>, bool)>, BTreeSet<String>, DecodedHistory);
+
+/// Model side of one trace: per step (verdict ok?, banners, observation, deterministic?).
+/// A build/clean step is *deterministic* when the complete DPOR exploration of its thread
+/// schedules reaches one outcome and one end state; the real binary runs under whatever
+/// schedule the OS picks, so only deterministic steps are compared in full (which twin of
+/// two byte-identical targets is recovered and which is rebuilt, or whose permission a
+/// shared cache entry carries, legitimately depends on the schedule).
+fn model_trace(sc: &Scenario, ops: &[Op]) -> Option<Vec<(bool, Vec<(String, String)>, Obs, bool)>>
 {
-    let sc2 = sc.clone();
-    let ops2 = ops.to_vec();
-    let (r, o) = sched::run_once(vec![], move ||
+    let mut st = initial_state(sc, false);
+    let mut out = vec![];
+    for op in ops
     {
-        let or = Oracles::default();
-        let ctx = Ctx { sc: &sc2, clock: ClockModel::Strict, or: &or };
-        let rc = RunCfg::serial(ClockModel::Strict);
-        let mut st = initial_state(&sc2, false);
-        let mut out = vec![];
-        for op in &ops2
+        let mut deterministic = true;
+        if matches!(op, Op::Build { .. } | Op::Clean { .. })
         {
+            let case = crate::schedeng::SchedCase { name: "realfs-step".into(), sc: sc.clone(), pre: vec![], op: op.clone() };
+            let cfg = crate::schedeng::ExploreCfg { snapshots: false, por: true, bound: None, threads: 1, deadline: Instant::now() + Duration::from_secs(20),
+                max_schedules: 20_000, oracles: Oracles::default(), c03: false, c04_history: false };
+            let r = crate::schedeng::explore(&case, &st, &cfg);
+            if r.cap_hit || r.outcomes.len() != 1 || r.end_states.len() != 1 || !r.failures.is_empty() { deterministic = false; }
+        }
+        let sc2 = sc.clone();
+        let st2 = st.clone();
+        let op2 = op.clone();
+        let (r, o) = sched::run_once(vec![], move ||
+        {
+            let or = Oracles::default();
+            let ctx = Ctx { sc: &sc2, clock: ClockModel::Strict, or: &or };
+            let rc = RunCfg::serial(ClockModel::Strict);
             let mut stats = Stats::default();
             let mut f = vec![];
-            // verdict and banners need the RunResult: run build/clean here directly
-            let (ok, banners) = match op
+            let (ok, banners) = match &op2
             {
                 Op::Build { goal } =>
                 {
-                    let rr = run_build(&st.fs, &rc, goal);
+                    let rr = run_build(&st2.fs, &rc, goal);
                     let mut b: Vec<(String, String)> = rr.prints.iter().filter_map(|p| if let PrintRec::Banner(t, path) = p { Some((t.clone(), path.clone())) } else { None }).collect();
                     b.sort();
                     (rr.verdict == Verdict::Ok, b)
                 },
-                Op::Clean { goal } => { let rr = run_clean(&st.fs, &rc, goal); (rr.verdict == Verdict::Ok, vec![]) },
+                Op::Clean { goal } => { let rr = run_clean(&st2.fs, &rc, goal); (rr.verdict == Verdict::Ok, vec![]) },
                 _ => (true, vec![]),
             };
-            st = apply(&ctx, &st, op, &mut stats, &mut f);
-            out.push((ok, banners, observe_model(&st.fs)));
-        }
-        out
-    });
-    if o.failure.is_some() { return None; }
-    r
+            let ns = apply(&ctx, &st2, &op2, &mut stats, &mut f);
+            (ok, banners, ns)
+        });
+        if o.failure.is_some() { return None; }
+        let (ok, banners, ns) = r?;
+        out.push((ok, banners, observe_model(&ns.fs), deterministic));
+        st = ns;
+        if !deterministic { break; }
+    }
+    Some(out)
 }
 
 fn apply_real(bin: &Path, dir: &Path, sc: &Scenario, op: &Op) -> Option<RealRun>
@@ -248,20 +268,32 @@ pub fn replay_trace_real(bin: &Path, sc: &Scenario, ops: &[Op], dir: &Path) -> O
     write_file(dir, RULES_FILE, render_rules(&sc.variants[0]).as_bytes());
     for (i, op) in ops.iter().enumerate()
     {
+        if i >= model.len() { break; }
         let real = apply_real(bin, dir, sc, op);
-        let (ok, banners, (ws, cache, hist)) = &model[i];
+        let (ok, banners, (ws, cache, hist), deterministic) = &model[i];
         if let Some(rr) = &real
         {
             if rr.ok != *ok
             {
                 return Some(format!("step {} {}: real binary {} (stderr {:?}) but the model {}", i, op.short(), if rr.ok { "succeeds" } else { "fails" }, crate::cli::first_line(&rr.stderr), if *ok { "succeeds" } else { "fails" }));
             }
-            if matches!(op, Op::Build { .. }) && rr.ok && rr.banners != *banners
+            if *deterministic && matches!(op, Op::Build { .. }) && rr.ok && rr.banners != *banners
             {
                 return Some(format!("step {} {}: status lines differ: real {:?} model {:?}", i, op.short(), rr.banners, banners));
             }
         }
         let (rws, rcache, rhist) = observe_real(dir);
+        if !*deterministic
+        {
+            // schedule-dependent step: only what every schedule agrees on (C06): the bytes
+            let a: BTreeMap<&String, &Vec<u8>> = rws.iter().map(|(k, v)| (k, &v.0)).collect();
+            let b: BTreeMap<&String, &Vec<u8>> = ws.iter().map(|(k, v)| (k, &v.0)).collect();
+            if a != b
+            {
+                return Some(format!("step {} {}: workspace bytes differ on a schedule-dependent step", i, op.short()));
+            }
+            break;
+        }
         if &rws != ws
         {
             let show = |m: &BTreeMap<String, (Vec<u8>, bool)>| m.iter().map(|(k, v)| format!("{}={:?}{}", k, String::from_utf8_lossy(&v.0), if v.1 { "[x]" } else { "" })).collect::<Vec<_>>().join(" ");
@@ -424,9 +456,24 @@ pub struct Resp
 
 pub fn http_get(port: u16, raw_path: &str) -> Result<Resp, String>
 {
+    // transient connection errors (loaded machine) are retried; a server that is gone stays gone
+    let mut last = String::new();
+    for attempt in 0..4
+    {
+        match http_get_once(port, raw_path)
+        {
+            Ok(r) => return Ok(r),
+            Err(e) => { last = e; std::thread::sleep(Duration::from_millis(50 * (attempt + 1))); },
+        }
+    }
+    Err(last)
+}
+
+fn http_get_once(port: u16, raw_path: &str) -> Result<Resp, String>
+{
     let mut s = TcpStream::connect(("127.0.0.1", port)).map_err(|e| format!("connect: {}", e))?;
-    s.set_read_timeout(Some(Duration::from_secs(5))).ok();
-    s.set_write_timeout(Some(Duration::from_secs(5))).ok();
+    s.set_read_timeout(Some(Duration::from_secs(20))).ok();
+    s.set_write_timeout(Some(Duration::from_secs(20))).ok();
     let req = format!("GET {} HTTP/1.1\r\nHost: 127.0.0.1\r\nConnection: close\r\n\r\n", raw_path);
     s.write_all(req.as_bytes()).map_err(|e| format!("write: {}", e))?;
     let mut buf = vec![];
@@ -469,22 +516,37 @@ impl Drop for Server
     }
 }
 
+static START_LOCK: Mutex<()> = Mutex::new(());
+
+/// Start `ruler serve <port>` in `dir`.  Port choice and start-up are serialised over all
+/// worker threads (two threads must not be handed the same free port), and the child must
+/// still be alive after the first successful connect (a child that lost the race for a port
+/// has exited, and the connect reached somebody else's server).
 fn start_server(bin: &Path, dir: &Path) -> Result<Server, String>
 {
-    for _attempt in 0..5
+    let _g = match START_LOCK.lock() { Ok(g) => g, Err(p) => p.into_inner() };
+    let mut last = String::new();
+    for _attempt in 0..8
     {
         let port = free_port();
         let child = Command::new(bin).args(["serve", &port.to_string()]).current_dir(dir).stdout(Stdio::null()).stderr(Stdio::null()).spawn().map_err(|e| format!("spawn: {}", e))?;
         let mut srv = Server { child, port };
         let start = Instant::now();
-        while start.elapsed() < Duration::from_secs(10)
+        let mut connected = false;
+        while start.elapsed() < Duration::from_secs(15)
         {
-            if let Ok(Some(_)) = srv.child.try_wait() { break; }
-            if TcpStream::connect(("127.0.0.1", port)).is_ok() { return Ok(srv); }
+            if let Ok(Some(st)) = srv.child.try_wait() { last = format!("server exited at start-up: {:?}", st); break; }
+            if TcpStream::connect(("127.0.0.1", port)).is_ok() { connected = true; break; }
             std::thread::sleep(Duration::from_millis(20));
         }
+        if connected
+        {
+            std::thread::sleep(Duration::from_millis(40));
+            if let Ok(None) = srv.child.try_wait() { return Ok(srv); }
+            last = "server exited right after start-up (port taken?)".to_string();
+        }
     }
-    Err("server did not start".to_string())
+    Err(format!("server did not start: {}", last))
 }
 
 fn materialise(fs_model: &Fs, dir: &Path)
@@ -746,9 +808,9 @@ pub fn run_serve(rep: &mut Report, tier: &str)
     let thorough = tier == "thorough";
     let cap = if thorough { 60 } else { 12 };
     let mut dirs: Vec<(String, Vec<Op>, Fs)> = vec![];
-    for sc in [crate::scen::s1_chain(), crate::scen::s3_multi()]
+    for sc in [crate::scen::s1_chain(), crate::scen::s3_multi(), crate::scen::s13_binary()]
     {
-        for (p, fs) in ruler_dirs(&sc, if thorough { 5 } else { 4 }, cap / 2)
+        for (p, fs) in ruler_dirs(&sc, if thorough { 5 } else { 4 }, cap / 3)
         {
             dirs.push((sc.name.clone(), p, fs));
         }
